@@ -25,6 +25,7 @@ service:
     - {context: ., ssh: ["default", "key1=./keys/id_rsa"]}
     - {context: ., ssh: {default: null}}
     - {context: ., ssh: {mykey: ./keys/id_rsa}}
+    - {context: ., ssh: {agentkey: null}}
     - {context: ., labels: {l1: v1, l2: ""}}
     - {context: ., labels: [FOO=BAR]}
     - {context: ., cache_from: [foo, bar], cache_to: ["type=local,dest=./cache"]}
@@ -141,6 +142,7 @@ service:
     - ["otherhost:50.31.209.229", "somehost=162.242.195.82"]
     - {somehost: 162.242.195.82, otherhost: 50.31.209.229}
     - ["v6=::1", "v6b:[::2]", "multi=1.1.1.1", "multi=2.2.2.2"]
+    - ["multi=2.2.2.2", "multi=1.1.1.1"]
     - {multi: [1.1.1.1, 2.2.2.2]}
   group_add: [[mail, "1001"]]
   gpus:
